@@ -193,3 +193,49 @@ func DescribeMap(mm *gostatsd.MetricMap) []string {
 	sort.Strings(out)
 	return out
 }
+
+// SeriesID is a drawn series identity used to make datapoints collide on purpose.
+type SeriesID struct {
+	Type   gostatsd.MetricType
+	Name   string
+	Tags   []string
+	Source string
+}
+
+// SeriesPool draws n series identities (types, names, tags, sources from the small pools).
+func SeriesPool(min, max int) *rapid.Generator[[]SeriesID] {
+	return rapid.SliceOfN(rapid.Custom(func(t *rapid.T) SeriesID {
+		return SeriesID{
+			Type:   rapid.SampledFrom(Types).Draw(t, "type"),
+			Name:   NameGen().Draw(t, "name"),
+			Tags:   TagsGen(3).Draw(t, "tags"),
+			Source: SourceGen().Draw(t, "source"),
+		}
+	}), min, max)
+}
+
+// DatapointFrom draws a datapoint that belongs to one of the pool's series with probability ~3/4
+// and is unconstrained otherwise.
+func DatapointFrom(pool []SeriesID, tsGen *rapid.Generator[int64]) *rapid.Generator[*gostatsd.Metric] {
+	return rapid.Custom(func(t *rapid.T) *gostatsd.Metric {
+		if len(pool) == 0 || rapid.IntRange(0, 3).Draw(t, "free") == 0 {
+			return Datapoint(tsGen).Draw(t, "dp")
+		}
+		s := rapid.SampledFrom(pool).Draw(t, "series")
+		m := &gostatsd.Metric{Type: s.Type, Name: s.Name, Tags: gostatsd.Tags(append([]string(nil), s.Tags...)), Source: gostatsd.Source(s.Source),
+			Rate: 1, Timestamp: gostatsd.Nanotime(tsGen.Draw(t, "ts"))}
+		if s.Tags == nil {
+			m.Tags = nil
+		}
+		switch m.Type {
+		case gostatsd.SET:
+			m.StringValue = rapid.SampledFrom([]string{"u1", "u2", "u3", "", "joe", "u:4"}).Draw(t, "member")
+		case gostatsd.GAUGE:
+			m.Value = FiniteValue().Draw(t, "value")
+		default:
+			m.Value = FiniteValue().Draw(t, "value")
+			m.Rate = RateGen().Draw(t, "rate")
+		}
+		return m
+	})
+}
